@@ -23,6 +23,18 @@ T("C03", f"{GEN}: every model x every total interpretation x value form x <=2 id
 T("C04", f"{GEN}: every connective formula to depth 2 (+negation closure) built 3 ways + cicJE grammar x all 0/1 assignments",
   "Complete truth tables of every formula inside the bound are compared with boolean semantics written directly on booleans.",
   "trusted: mc/ref.py connective(); independent JSON writer in c04.py", "4/C04")
+T("C02", f"{GEN}: every model with <=14 polyhedron columns x ALL integer points of the column box; lost / spurious leaf parts",
+  "All integer points of the column box of every model inside the bound are classified; no satisfying assignment lost, and for solver-safe structures no spurious point.",
+  "trusted: mc/ref.py; solver-safe judged on the real object structure", "4/C02")
+T("C05", f"{GEN}: negate / Not / double negation edges from every state x every assignment; exact complement, solver-safe, id kept",
+  "Every negate edge inside the bound is executed and its complete truth table compared with 1 - reference.",
+  "trusted: mc/ref.py truth()/connective()", "4/C05")
+T("C06", f"{GEN}: every model x EVERY partial/interval interpretation x every completion; containment; flags vs brute force",
+  "All interval interpretations (all deviation counts) of every model inside the bound are executed and compared with the reference range over all completions.",
+  "trusted: mc/ref.py", "4/C06")
+T("C07", f"{GEN}: assume(d) edges for every dictionary of <=1/2 ids x every interpretation of the remaining leaves; differential + reference",
+  "Every assumption dictionary inside the bound is executed on fresh objects on both sides.",
+  "trusted: mc/ref.py", "4/C07")
 
 
 def build():
